@@ -75,6 +75,9 @@ def worker(job):
                         c["graph_nodes"] = g_nodes
                 if not c.get("cyclic"):
                     c["solutions"] = forest.solutions
+                    if opts.get("chart") and c.get("nodes") is not None and len(c["nodes"]) <= 1200:
+                        from . import chart
+                        c["chart"] = chart.closed_chart(out["grammar"], c["rx"], sk_ws(w))
         except BaseException as e:  # noqa
             c["status"] = "exc-post:" + impl.exc_kind(e)
         out["cases"].append(c)
